@@ -45,6 +45,9 @@ theorem refines_all (cfg : Cfg) (s : St) (c : Call) (h : WF cfg c) :
     exact refines_version cfg s
   | quit => exact refines_quit cfg s
   | raw a b => exact absurd h (by simp [WF])
+  | stats args => exact absurd h (by simp [WF])
+  | cacheMemlimit m => exact absurd h (by simp [WF])
+  | shutdown g => exact absurd h (by simp [WF])
   | store verb k v e nr fl cas =>
     rw [sockAfter_benign _ _ (by simp) (spec_benign cfg s _ (by simp))]
     exact refines_store cfg s verb k v e nr fl cas h.1 h.2
